@@ -40,14 +40,28 @@ rc3, o3 = sh("/verif/tools/mt.sh %s/patch.diff %s 2>&1 | grep -E '^check|^VIOLAT
 print(o3)
 dst = "/verif/seeded/%s-%s" % (pid, slug)
 os.makedirs(dst, exist_ok=True)
+prev = {}
+if os.path.exists(os.path.join(dst, "meta.json")):
+    try:
+        prev = json.load(open(os.path.join(dst, "meta.json"))).get("check_results", {})
+    except Exception:
+        prev = {}
 for f in os.listdir(out):
     if f in ("patch.diff", "meta.json") or f.endswith(".rs"):
         shutil.copy(os.path.join(out, f), dst)
 try:
-    m = json.load(open(os.path.join(dst, "meta.json")))
+    m = json.load(open(os.path.join(out, "meta.json")))
 except Exception:
     m = {}
+if isinstance(prev, dict) and prev:
+    m["check_results"] = prev
 m["confirmed_by_orchestrator"] = {"demo_without_change": results(o0), "demo_with_change": results(o1),
                                   "crate_lib_tests_with_change": results(o2)[:2], "worktree": "/tmp/mt/repo (scratch)"}
-m["check_results"] = {"%s quick (tools/mt.sh, private copies of /repo and /verif)" % pid: [l for l in o3.splitlines() if l.startswith(("check", "VIOLATION"))]}
+src = os.environ.get("MT_SRC", "/verif")
+label = "as first built (snapshot before the builder was told about this change)" if src != "/verif" else "current /verif"
+rev = subprocess.run("git -C /verif rev-parse --short HEAD", shell=True, stdout=subprocess.PIPE, text=True).stdout.strip()
+m.setdefault("check_results", {})
+if not isinstance(m["check_results"], dict):
+    m["check_results"] = {"earlier": m["check_results"]}
+m["check_results"]["%s quick, %s, /verif@%s (tools/mt.sh, private copies)" % (pid, label, rev)] = [l for l in o3.splitlines() if l.startswith(("check", "VIOLATION"))]
 json.dump(m, open(os.path.join(dst, "meta.json"), "w"), indent=1)
